@@ -216,3 +216,208 @@ package sizes
 //@ property C07: (*table).formatRow
 //@ property C05: (*item).levelOfConcern (*item).MarshalJSON
 //@ property C09: (*TreeSize).addDescendent (*TreeSize).addBlob (*TreeSize).addLink (*TreeSize).addSubmodule (*HistorySize).recordBlob (*HistorySize).recordTree (*HistorySize).recordCommit (*HistorySize).recordTag
+
+// ---------------------------------------------------------------- graph.go: blobs and commits (C01, C02, C03)
+
+// A blob named by a tree entry has been registered before the tree is read
+// (see the tree section below): assumed at the call site (A-GIT-REVLIST).
+//@ func (*Graph).GetBlobSize
+//@   option assume-pre A-GIT-REVLIST
+//@   requires has(g.blobSizes, oid)
+//@   pure
+//@   ensures result == g.blobSizes[oid]
+
+//@ func (*Graph).RegisterBlob
+//@   modifies map(g.blobSizes), g.historySize.UniqueBlobCount, g.historySize.UniqueBlobSize, g.historySize.MaxBlobSize, g.historySize.MaxBlobSizeBlob, fieldmem(Path.seekerCount), fieldmem(Path.parent), fieldmem(Path.relativePath), mapsof(InOrderPathResolver)
+//@   ensures has(g.blobSizes, oid) && g.blobSizes[oid].Size == objectSize
+//@   ensures forall o OID :: o != oid ==> has(g.blobSizes, o) == old(has(g.blobSizes, o)) && g.blobSizes[o] == old(g.blobSizes[o])
+//@   ensures wide(g.historySize.UniqueBlobCount) == sat32(wide(old(g.historySize.UniqueBlobCount)) + 1)
+//@   ensures wide(g.historySize.UniqueBlobSize) == sat64(wide(old(g.historySize.UniqueBlobSize)) + wide(objectSize))
+//@   ensures g.historySize.MaxBlobSize == umax32(old(g.historySize.MaxBlobSize), objectSize)
+
+//@ func (*Graph).GetTreeSize
+//@   requires has(g.treeSizes, oid)
+//@   pure
+//@   ensures result == g.treeSizes[oid]
+
+//@ func (*Graph).GetCommitSize
+//@   requires has(g.commitSizes, oid)
+//@   pure
+//@   ensures result == g.commitSizes[oid]
+
+// C03: the depth recorded for a commit is 1 + the maximum depth of its
+// parents (1 for a root commit): it dominates every parent's depth + 1 and is
+// attained by one of them. The preconditions (tree and all parents already
+// known, commit not yet known) are what makes the delivery order matter; they
+// are obligations at the call site.
+//@ func (*Graph).RegisterCommit
+//@   requires !has(g.commitSizes, oid)
+//@   requires has(g.treeSizes, commit.Tree)
+//@   requires forall j int :: 0 <= j && j < len(commit.Parents) ==> has(g.commitSizes, commit.Parents[j])
+//@   modifies map(g.commitSizes), g.historySize.UniqueCommitCount, g.historySize.UniqueCommitSize, g.historySize.MaxCommitSize, g.historySize.MaxCommitSizeCommit, g.historySize.MaxHistoryDepth, g.historySize.MaxParentCount, g.historySize.MaxParentCountCommit, fieldmem(Path.seekerCount), fieldmem(Path.parent), fieldmem(Path.relativePath), mapsof(InOrderPathResolver)
+//@   loop 0 invariant -1 <= rangeindex && rangeindex < len(commit.Parents)
+//@   loop 0 invariant forall j int :: 0 <= j && j <= rangeindex ==> g.commitSizes[commit.Parents[j]].MaxAncestorDepth <= size.MaxAncestorDepth
+//@   loop 0 invariant size.MaxAncestorDepth == 0 || (exists j int :: 0 <= j && j <= rangeindex && g.commitSizes[commit.Parents[j]].MaxAncestorDepth == size.MaxAncestorDepth)
+//@   ensures has(g.commitSizes, oid)
+//@   ensures forall o OID :: o != oid ==> has(g.commitSizes, o) == old(has(g.commitSizes, o)) && g.commitSizes[o] == old(g.commitSizes[o])
+//@   ensures forall j int :: 0 <= j && j < len(commit.Parents) ==> wide(g.commitSizes[oid].MaxAncestorDepth) >= sat32(wide(old(g.commitSizes[commit.Parents[j]].MaxAncestorDepth)) + 1)
+//@   ensures len(commit.Parents) == 0 ==> g.commitSizes[oid].MaxAncestorDepth == 1
+//@   ensures g.commitSizes[oid].MaxAncestorDepth == 1 || (exists j int :: 0 <= j && j < len(commit.Parents) && wide(g.commitSizes[oid].MaxAncestorDepth) == sat32(wide(old(g.commitSizes[commit.Parents[j]].MaxAncestorDepth)) + 1))
+//@   ensures g.historySize.MaxHistoryDepth == umax32(old(g.historySize.MaxHistoryDepth), g.commitSizes[oid].MaxAncestorDepth)
+//@   ensures wide(g.historySize.MaxParentCount) == max(wide(old(g.historySize.MaxParentCount)), sat32(wide(len(commit.Parents))))
+//@   ensures wide(g.historySize.UniqueCommitCount) == sat32(wide(old(g.historySize.UniqueCommitCount)) + 1)
+//@   ensures wide(g.historySize.UniqueCommitSize) == sat64(wide(old(g.historySize.UniqueCommitSize)) + wide(commit.Size))
+//@   ensures g.historySize.MaxCommitSize == umax32(old(g.historySize.MaxCommitSize), commit.Size)
+
+// ---------------------------------------------------------------- graph.go: trees (C01, C02, C04)
+// A blob named by a tree entry has been registered before the tree is read:
+// pass 1 of ScanRepositoryUsingGraph registers every blob that git lists, and
+// git lists every blob of every listed tree (A-GIT-REVLIST). The precondition
+// of GetBlobSize is therefore an assumption at its call site, not an
+// obligation.
+//@ func newTreeRecord
+//@   pure
+//@   ensures result != nil && fresh(result) && result.oid == oid && result.pending == -1 && len(result.listeners) == 0
+//@   ensures result.entryCount == 0 && result.size.ExpandedTreeCount == 1 && result.size.MaxPathDepth == 0 && result.size.MaxPathLength == 0 && result.size.ExpandedBlobCount == 0 && result.size.ExpandedBlobSize == 0 && result.size.ExpandedLinkCount == 0 && result.size.ExpandedSubmoduleCount == 0
+
+//@ func (*treeRecord).addListener
+//@   modifies r.listeners
+//@   ensures len(r.listeners) == old(len(r.listeners)) + 1
+
+// Known size: returned, nothing changes. Unknown: (zero, false), a record for
+// the tree exists afterwards and the listener has been appended to it.
+//@ func (*Graph).RequireTreeSize
+//@   modifies map(g.treeRecords), fieldmem(treeRecord.listeners)
+//@   ensures old(has(g.treeSizes, oid)) ==> result1 && result0 == old(g.treeSizes[oid]) && unchanged_all()
+//@   ensures !old(has(g.treeSizes, oid)) ==> !result1 && has(g.treeRecords, oid)
+//@   ensures !old(has(g.treeSizes, oid)) && old(has(g.treeRecords, oid)) ==> g.treeRecords[oid] == old(g.treeRecords[oid]) && len(g.treeRecords[oid].listeners) == old(len(g.treeRecords[oid].listeners)) + 1
+//@   ensures forall o OID :: o != oid ==> has(g.treeRecords, o) == old(has(g.treeRecords, o)) && g.treeRecords[o] == old(g.treeRecords[o])
+
+// Exactly one recordTree per finalised tree: the census fields move by exactly
+// one object; the memo is filled and the record removed.
+//@ func (*Graph).finalizeTreeSize
+//@   modifies map(g.treeSizes), map(g.treeRecords), g.historySize.UniqueTreeCount, g.historySize.UniqueTreeSize, g.historySize.UniqueTreeEntries, g.historySize.MaxTreeEntries, g.historySize.MaxTreeEntriesTree, g.historySize.MaxPathDepth, g.historySize.MaxPathDepthTree, g.historySize.MaxPathLength, g.historySize.MaxPathLengthTree, g.historySize.MaxExpandedTreeCount, g.historySize.MaxExpandedTreeCountTree, g.historySize.MaxExpandedBlobCount, g.historySize.MaxExpandedBlobCountTree, g.historySize.MaxExpandedBlobSize, g.historySize.MaxExpandedBlobSizeTree, g.historySize.MaxExpandedLinkCount, g.historySize.MaxExpandedLinkCountTree, g.historySize.MaxExpandedSubmoduleCount, g.historySize.MaxExpandedSubmoduleCountTree, fieldmem(Path.seekerCount), fieldmem(Path.parent), fieldmem(Path.relativePath), mapsof(InOrderPathResolver)
+//@   ensures has(g.treeSizes, oid) && g.treeSizes[oid] == size && !has(g.treeRecords, oid)
+//@   ensures forall o OID :: o != oid ==> has(g.treeSizes, o) == old(has(g.treeSizes, o)) && g.treeSizes[o] == old(g.treeSizes[o]) && has(g.treeRecords, o) == old(has(g.treeRecords, o)) && g.treeRecords[o] == old(g.treeRecords[o])
+//@   ensures wide(g.historySize.UniqueTreeCount) == sat32(wide(old(g.historySize.UniqueTreeCount)) + 1)
+//@   ensures wide(g.historySize.UniqueTreeSize) == sat64(wide(old(g.historySize.UniqueTreeSize)) + wide(objectSize))
+//@   ensures wide(g.historySize.UniqueTreeEntries) == sat64(wide(old(g.historySize.UniqueTreeEntries)) + wide(treeEntries))
+//@   ensures g.historySize.MaxTreeEntries == umax32(old(g.historySize.MaxTreeEntries), treeEntries)
+//@   ensures g.historySize.MaxPathDepth == umax32(old(g.historySize.MaxPathDepth), size.MaxPathDepth)
+//@   ensures g.historySize.MaxPathLength == umax32(old(g.historySize.MaxPathLength), size.MaxPathLength)
+//@   ensures g.historySize.MaxExpandedTreeCount == umax32(old(g.historySize.MaxExpandedTreeCount), size.ExpandedTreeCount)
+//@   ensures g.historySize.MaxExpandedBlobCount == umax32(old(g.historySize.MaxExpandedBlobCount), size.ExpandedBlobCount)
+//@   ensures g.historySize.MaxExpandedBlobSize == umax64(old(g.historySize.MaxExpandedBlobSize), size.ExpandedBlobSize)
+//@   ensures g.historySize.MaxExpandedLinkCount == umax32(old(g.historySize.MaxExpandedLinkCount), size.ExpandedLinkCount)
+//@   ensures g.historySize.MaxExpandedSubmoduleCount == umax32(old(g.historySize.MaxExpandedSubmoduleCount), size.ExpandedSubmoduleCount)
+
+// pending == 0: finalise exactly once and notify the listeners; otherwise no
+// effect at all.
+//@ func (*treeRecord).maybeFinalize
+//@   modifies everything
+//@   call 0 finalizeTreeSize as fin
+//@   ensures fin_reached == (old(r.pending) == 0)
+//@   ensures old(r.pending) != 0 ==> unchanged_all()
+//@   loop 0 invariant -1 <= rangeindex
+
+// initialize reads the tree's entries once. Per entry (loop step clauses; the
+// mode classification is git's S_IFMT encoding, C04): a gitlink counts as one
+// submodule and nothing else, a symlink as one link and nothing else, any
+// other non-tree entry as one file with the size recorded for that blob, and
+// a subtree either contributes its known size now or leaves the record
+// unchanged with exactly one more pending listener. Every iteration counts
+// exactly one entry (C02: entry count = number of entries).
+//@ func (*treeRecord).initialize
+//@   modifies everything
+//@   call 0 maybeFinalize as fin
+//@   ensures result == nil ==> fin_reached
+//@   loop 0 step r.entryCount == plus32(prev(r.entryCount), 1)
+//@   loop 0 step r.pending == prev(r.pending) || r.pending == prev(r.pending) + 1
+//@   loop 0 step r.pending == prev(r.pending) + 1 ==> r.size == prev(r.size) && entry.Filemode & 61440 == 16384
+//@   loop 0 step entry.Filemode & 61440 == 57344 ==> r.pending == prev(r.pending) && wide(r.size.ExpandedSubmoduleCount) == sat32(wide(prev(r.size.ExpandedSubmoduleCount)) + 1) && r.size.ExpandedBlobCount == prev(r.size.ExpandedBlobCount) && r.size.ExpandedBlobSize == prev(r.size.ExpandedBlobSize) && r.size.ExpandedLinkCount == prev(r.size.ExpandedLinkCount) && r.size.ExpandedTreeCount == prev(r.size.ExpandedTreeCount)
+//@   loop 0 step entry.Filemode & 61440 == 40960 ==> r.pending == prev(r.pending) && wide(r.size.ExpandedLinkCount) == sat32(wide(prev(r.size.ExpandedLinkCount)) + 1) && r.size.ExpandedBlobCount == prev(r.size.ExpandedBlobCount) && r.size.ExpandedBlobSize == prev(r.size.ExpandedBlobSize) && r.size.ExpandedSubmoduleCount == prev(r.size.ExpandedSubmoduleCount) && r.size.ExpandedTreeCount == prev(r.size.ExpandedTreeCount)
+//@   loop 0 step entry.Filemode & 61440 != 16384 && entry.Filemode & 61440 != 57344 && entry.Filemode & 61440 != 40960 ==> r.pending == prev(r.pending) && wide(r.size.ExpandedBlobCount) == sat32(wide(prev(r.size.ExpandedBlobCount)) + 1) && r.size.ExpandedLinkCount == prev(r.size.ExpandedLinkCount) && r.size.ExpandedSubmoduleCount == prev(r.size.ExpandedSubmoduleCount) && r.size.ExpandedTreeCount == prev(r.size.ExpandedTreeCount)
+//@   loop 0 step entry.Filemode & 61440 == 16384 && r.pending == prev(r.pending) ==> r.size.ExpandedBlobCount == plus32(prev(r.size.ExpandedBlobCount), prev(g.treeSizes[entry.OID].ExpandedBlobCount)) && r.size.ExpandedTreeCount == plus32(prev(r.size.ExpandedTreeCount), prev(g.treeSizes[entry.OID].ExpandedTreeCount)) && r.size.ExpandedBlobSize == plus64(prev(r.size.ExpandedBlobSize), prev(g.treeSizes[entry.OID].ExpandedBlobSize))
+
+// The listener registered for a subtree whose size was not yet known: when
+// that size arrives it is combined by the same addDescendent as on the
+// immediate path, exactly one pending dependency is resolved, and then
+// maybeFinalize runs (C04, C09: immediate path == deferred path).
+//@ func (*treeRecord).initialize$1
+//@   modifies everything
+//@   call 0 addDescendent assert (*r).pending == old((*r).pending) && (*r).size == old((*r).size)
+//@   call 0 maybeFinalize assert (*r).pending == old((*r).pending) - 1
+//@   call 0 maybeFinalize assert (*r).size.ExpandedBlobCount == plus32(old((*r).size.ExpandedBlobCount), size.ExpandedBlobCount) && (*r).size.ExpandedTreeCount == plus32(old((*r).size.ExpandedTreeCount), size.ExpandedTreeCount) && (*r).size.ExpandedBlobSize == plus64(old((*r).size.ExpandedBlobSize), size.ExpandedBlobSize) && (*r).size.ExpandedLinkCount == plus32(old((*r).size.ExpandedLinkCount), size.ExpandedLinkCount) && (*r).size.ExpandedSubmoduleCount == plus32(old((*r).size.ExpandedSubmoduleCount), size.ExpandedSubmoduleCount)
+//@   call 0 maybeFinalize assert (*r).size.MaxPathDepth == umax32(old((*r).size.MaxPathDepth), plus32(size.MaxPathDepth, 1))
+
+// A tree is registered at most once (second registration panics: no double
+// counting); the rest is initialize.
+//@ func (*Graph).RegisterTree
+//@   requires !has(g.treeSizes, oid)
+//@   modifies everything
+//@   call 0 initialize as ini
+//@   ensures ini_reached && result == ini
+
+// ---------------------------------------------------------------- graph.go: tags (C01, C03)
+
+//@ func newTagRecord
+//@   pure
+//@   ensures result != nil && fresh(result) && result.oid == oid && result.pending == -1 && len(result.listeners) == 0 && result.size.TagDepth == 0
+
+//@ func (*tagRecord).addListener
+//@   modifies r.listeners
+//@   ensures len(r.listeners) == old(len(r.listeners)) + 1
+
+//@ func (*Graph).RequireTagSize
+//@   modifies map(g.tagRecords), fieldmem(tagRecord.listeners)
+//@   ensures old(has(g.tagSizes, oid)) ==> result1 && result0 == old(g.tagSizes[oid]) && unchanged_all()
+//@   ensures !old(has(g.tagSizes, oid)) ==> !result1 && has(g.tagRecords, oid)
+//@   ensures forall o OID :: o != oid ==> has(g.tagRecords, o) == old(has(g.tagRecords, o)) && g.tagRecords[o] == old(g.tagRecords[o])
+
+//@ func (*Graph).finalizeTagSize
+//@   modifies map(g.tagSizes), map(g.tagRecords), g.historySize.UniqueTagCount, g.historySize.MaxTagDepth, g.historySize.MaxTagDepthTag, fieldmem(Path.seekerCount), fieldmem(Path.parent), fieldmem(Path.relativePath), mapsof(InOrderPathResolver)
+//@   ensures has(g.tagSizes, oid) && g.tagSizes[oid] == size && !has(g.tagRecords, oid)
+//@   ensures forall o OID :: o != oid ==> has(g.tagSizes, o) == old(has(g.tagSizes, o)) && g.tagSizes[o] == old(g.tagSizes[o])
+//@   ensures wide(g.historySize.UniqueTagCount) == sat32(wide(old(g.historySize.UniqueTagCount)) + 1)
+//@   ensures g.historySize.MaxTagDepth == umax32(old(g.historySize.MaxTagDepth), size.TagDepth)
+
+//@ func (*tagRecord).maybeFinalize
+//@   modifies everything
+//@   call 0 finalizeTagSize as fin
+//@   ensures fin_reached == (old(r.pending) == 0)
+//@   ensures old(r.pending) != 0 ==> unchanged_all()
+
+// C03: the depth of a tag is 1 if its referent is not a tag, 1 + the
+// referent's depth if that is already known, and otherwise 1 for now with
+// exactly one pending listener that will add the referent's depth.
+//@ func (*tagRecord).initialize
+//@   modifies everything
+//@   call 0 maybeFinalize as fin
+//@   call 0 maybeFinalize assert r.pending == 0 || r.pending == 1
+//@   call 0 maybeFinalize assert tag.ReferentType != "tag" ==> r.size.TagDepth == 1 && r.pending == 0
+//@   call 0 maybeFinalize assert tag.ReferentType == "tag" && old(has(g.tagSizes, tag.Referent)) ==> r.pending == 0 && r.size.TagDepth == plus32(1, old(g.tagSizes[tag.Referent].TagDepth))
+//@   call 0 maybeFinalize assert tag.ReferentType == "tag" && !old(has(g.tagSizes, tag.Referent)) ==> r.pending == 1 && r.size.TagDepth == 1 && has(g.tagRecords, tag.Referent)
+//@   ensures fin_reached
+
+//@ func (*tagRecord).initialize$1
+//@   modifies everything
+//@   call 0 maybeFinalize assert (*r).pending == old((*r).pending) - 1 && (*r).size.TagDepth == plus32(old((*r).size.TagDepth), size.TagDepth)
+
+//@ func (*Graph).RegisterTag
+//@   requires !has(g.tagSizes, oid)
+//@   modifies everything
+
+// ---------------------------------------------------------------- graph.go: references (C07)
+//@ func (*HistorySize).recordReferenceGroup
+//@   modifies map(s.ReferenceGroups), typemem(counts.Count32)
+//@   ensures has(s.ReferenceGroups, keyof(group))
+//@   ensures old(has(s.ReferenceGroups, keyof(group))) ==> s.ReferenceGroups[keyof(group)] == old(s.ReferenceGroups[keyof(group)]) && wide(*s.ReferenceGroups[keyof(group)]) == sat32(wide(old(*s.ReferenceGroups[keyof(group)])) + 1)
+//@   ensures !old(has(s.ReferenceGroups, keyof(group))) ==> *s.ReferenceGroups[keyof(group)] == 1
+//@   ensures forall k Key :: k != keyof(group) ==> has(s.ReferenceGroups, k) == old(has(s.ReferenceGroups, k)) && s.ReferenceGroups[k] == old(s.ReferenceGroups[k])
+
+//@ property C01: (*Graph).RegisterBlob (*Graph).GetBlobSize (*Graph).RegisterCommit (*Graph).RegisterTree (*Graph).RegisterTag (*Graph).finalizeTreeSize (*Graph).finalizeTagSize (*treeRecord).maybeFinalize (*tagRecord).maybeFinalize (*treeRecord).initialize (*tagRecord).initialize
+//@ property C02: (*Graph).RegisterBlob (*Graph).RegisterCommit (*Graph).finalizeTreeSize (*treeRecord).initialize
+//@ property C03: (*CommitSize).addParent (*Graph).GetCommitSize (*Graph).GetTreeSize (*Graph).RegisterCommit (*HistorySize).recordCommit (*HistorySize).recordTag newTagRecord (*tagRecord).addListener (*Graph).RequireTagSize (*Graph).finalizeTagSize (*tagRecord).maybeFinalize (*tagRecord).initialize (*tagRecord).initialize$1 (*Graph).RegisterTag
+//@ property C04: newTreeRecord (*treeRecord).addListener (*Graph).RequireTreeSize (*Graph).finalizeTreeSize (*treeRecord).maybeFinalize (*treeRecord).initialize (*treeRecord).initialize$1 (*Graph).RegisterTree (*Graph).GetBlobSize
+//@ property C09: (*treeRecord).initialize (*treeRecord).initialize$1 (*tagRecord).initialize (*tagRecord).initialize$1 (*Graph).RequireTreeSize (*Graph).RequireTagSize
+//@ property C07: (*HistorySize).recordReference (*HistorySize).recordReferenceGroup
